@@ -1,0 +1,91 @@
+//! Read-only structural dump of a `World`, used by the external verification harness.
+//!
+//! Compiled only under `--cfg brood_verif`. Nothing here mutates the world.
+
+use crate::{
+    entity,
+    registry,
+    world::World,
+};
+use alloc::vec::Vec;
+
+/// A structural snapshot of one archetype table.
+#[derive(Clone, Debug, Eq, PartialEq)]
+pub struct VerifArchetype {
+    /// The identifier bytes of the archetype.
+    pub identifier: Vec<u8>,
+    /// The shared length of the archetype.
+    pub length: usize,
+    /// The number of component columns.
+    pub columns: usize,
+    /// The stored entity identifiers, as `(index, generation)`, in row order.
+    pub entity_identifiers: Vec<(usize, u64)>,
+}
+
+/// A structural snapshot of a `World`.
+#[derive(Clone, Debug, Eq, PartialEq)]
+pub struct VerifDump {
+    /// `World::len`.
+    pub len: usize,
+    /// For every slot: generation and, if active, `(ordinal of the archetype in `archetypes` the
+    /// location's pointer resolves to in this world's own table, row)`.
+    pub slots: Vec<(u64, Option<(Option<usize>, usize)>)>,
+    /// The free queue, front first.
+    pub free: Vec<usize>,
+    /// The archetypes, in table iteration order.
+    pub archetypes: Vec<VerifArchetype>,
+    /// For every entry of the type-id lookup, the ordinal of the archetype it resolves to.
+    pub type_ids: Vec<Option<usize>>,
+    /// For every entry of the foreign identifier lookup: the ordinal of the archetype whose buffer
+    /// the key slice lives in, and the ordinal of the archetype the value resolves to.
+    pub foreign: Vec<(Option<usize>, Option<usize>)>,
+}
+
+impl<Registry, Resources> World<Registry, Resources>
+where
+    Registry: registry::Registry,
+{
+    /// Returns a structural snapshot of this world.
+    #[must_use]
+    pub fn verif_dump(&self) -> VerifDump {
+        let (archetypes, pointers, type_ids, foreign) = self.archetypes.verif_dump();
+        let resolve = |pointer: *const u8| pointers.iter().position(|p| *p == pointer);
+        VerifDump {
+            len: self.len,
+            slots: self
+                .entity_allocator
+                .slots
+                .iter()
+                .map(|slot| {
+                    (
+                        slot.generation,
+                        slot.location.map(|location| {
+                            (resolve(location.identifier.verif_pointer()), location.index)
+                        }),
+                    )
+                })
+                .collect(),
+            free: self.entity_allocator.free.iter().copied().collect(),
+            archetypes,
+            type_ids: type_ids.into_iter().map(resolve).collect(),
+            foreign: foreign
+                .into_iter()
+                .map(|(key, value)| (resolve(key), resolve(value)))
+                .collect(),
+        }
+    }
+}
+
+impl entity::Identifier {
+    /// Returns `(index, generation)`.
+    #[must_use]
+    pub fn verif_parts(&self) -> (usize, u64) {
+        (self.index, self.generation)
+    }
+
+    /// Builds an identifier from raw parts.
+    #[must_use]
+    pub fn verif_new(index: usize, generation: u64) -> Self {
+        Self::new(index, generation)
+    }
+}
